@@ -106,7 +106,24 @@ func vMergeMember(depth int) (JsonNode, bool) {
 		}
 		return jsonObject{"c": vNum()}, true
 	default:
-		return jsonArray{vNum()}, true
+		return vMergeArr(), true
+	}
+}
+
+// vMergeArr: an array as a patch value. RFC 7386 treats arrays as opaque replacement values:
+// nulls inside them (bare, in a nested array, as a member of an element) are data, not removals.
+func vMergeArr() jsonArray {
+	switch vChoice(vParam("ARRKINDS", 5)) {
+	case 0:
+		return jsonArray{vNum()}
+	case 1:
+		return jsonArray{jsonNull(nil)}
+	case 2:
+		return jsonArray{jsonObject{"k": jsonNull(nil), "j": vNum()}}
+	case 3:
+		return jsonArray{jsonArray{jsonNull(nil)}, vNum()}
+	default:
+		return jsonArray{}
 	}
 }
 
@@ -148,7 +165,7 @@ func VerifC12Merge() {
 		if vChoice(2) == 0 {
 			p = vNum()
 		} else {
-			p = jsonArray{vNum()}
+			p = vMergeArr()
 		}
 	}
 	t := vMergeTarget()
